@@ -8,10 +8,16 @@ import KyupyVerif.Proofs.Grid
 /-! # C07 — the published level partition is a valid parallel schedule
 
 Signal level (all op programs — theorems): ops that are pairwise independent may run in any order
-(`levels_perm`), the levelisation fold of `SimOps` (model `lstep`, tied to `level_starts` by exact
-correspondence) puts every writer strictly before its readers (`levelise_valid`), and the Boolean
-certificate `levelIndepB` — evaluated on the REAL ops of every level of every generated circuit — implies
-the independence hypothesis. Memory level: `threads_any_order` (footprint-disjoint threads commute, whole
+(`levels_perm`), and the Boolean certificate `levelIndepB` — evaluated on the REAL ops of every level of every generated
+circuit — implies the independence hypothesis. **Levelisation (audit finding 9):** the statement about the code's levelisation
+is `writer_before_reader_simops`: for `level_starts` as `levelise` of the `SimOps` model computes it (`Model/SimOps.lean:
+levStep`, reads operands THROUGH THE STEMS; tied to the real `level_starts` by exact correspondence, C01/C08) — every
+well-formed netlist, topological order, `strip_forks` on and off — the table starts with 0 and increases, the row writing a
+line sits in a STRICTLY earlier level than every later row reading it (through stems), and every line operand has such an
+earlier writer; `levels_contiguous_simops`: the level number read off `level_starts` never decreases along the rows.
+`writer_before_reader` / `levels_contiguous` are the same two facts for a stand-alone abstract fold (`Proofs/Levelise.lean:
+lstep`, operands read directly, no stems) that NO driver command runs and that is not the model of `SimOps`; they are kept as
+the signal-level lemma, not as a statement about the code. Memory level: `threads_any_order` (footprint-disjoint threads commute, whole
 memory incl. stale cells) is proved generically; `memory_any_schedule`: when the map certificate of C08 accepts the
 REAL tables, every duplicate-free execution order that respects `level_starts` leaves the same values in every observed
 memory region (whatever the value domain and storage discipline) — and `memory_any_schedule_all_circuits`: for the tables the `SimOps` model builds
@@ -114,13 +120,63 @@ theorem memory_any_schedule_all_circuits {α C : Type} (tbl : List PrefixRow) (n
 example : (simopsMap Gen.kindPrefixes C08.demoNet C08.demoOrder false (fun _ => 1) 1 true).schedOKB [1, 0, 3, 2, 4, 5] = true := by
   decide +kernel
 
-/-- the levelisation of `SimOps`: an op that writes a signal is placed in a strictly earlier level than every
+/-- **levelisation of the `SimOps` model** (`levelise`, `strip_forks` on or off; the fact is `ProgOK.lev`/`.opnd`/`.starts` inside
+    `C08.simops_program_facts`): with `starts` = the model's `level_starts` and `levelOfS starts k` = the level of row `k`:
+    (a) `starts` begins with 0, strictly increases and stays inside the program; (b) **writer before reader**: a row `k'` writing a
+    line sits in a strictly earlier level than every later row `k` that reads this line — directly or, under `strip_forks`,
+    as the stem of one of its operand branches; (c) every operand (through stems) is the constant-0 slot, an input slot or a line
+    written by an EARLIER row — so with (b) no row reads a signal produced in its own or a later level. -/
+theorem writer_before_reader_simops (tbl : List PrefixRow) (net : Net) (order : List Nat) (strip : Bool)
+    (hwf : net.wfB = true) (ho : orderOKB net order = true)
+    (hf : strip = true → forksOKB net order = true) (hr : readsDrivenB tbl net order = true) :
+    let ops := genOps tbl net order strip
+    let st := stemsOf net strip
+    let starts := (levelise net.idx.len st ops).starts.reverse
+    StartsOK starts ops.length ∧
+    (∀ (k' k : Nat) (o' o : OpRow), k' < k → ops[k']? = some o' → ops[k]? = some o → o'.out ≠ net.idx.tmp →
+      o'.out ∈ opSrcs st o → levelOfS starts k' < levelOfS starts k) ∧
+    (∀ (k : Nat) (o : OpRow), ops[k]? = some o → ∀ x ∈ opSrcs st o,
+      x = net.idx.zero ∨ x ∈ (simopsMap tbl net order strip (fun _ => 1) 1 false).ppiSlots ∨
+        (x < net.idx.zero ∧ ∃ k' o', k' < k ∧ ops[k']? = some o' ∧ o'.out = x)) :=
+  let h := C08.simops_program_facts tbl net order strip (fun _ => 1) 1 false hwf ho hf hr
+  ⟨h.starts, h.lev, h.opnd⟩
+
+/-- the level read off `level_starts` never decreases along the rows: each level is the contiguous range of rows the table
+    records (any table) -/
+theorem levels_contiguous_simops (starts : List Nat) (k' k : Nat) (h : k' ≤ k) :
+    levelOfS starts k' ≤ levelOfS starts k := by
+  unfold levelOfS
+  induction starts with
+  | nil => simp
+  | cons t r ih =>
+    simp only [List.filter_cons]
+    by_cases h1 : t ≤ k'
+    · have h2 : t ≤ k := by omega
+      simp only [h1, h2, decide_true, if_true, List.length_cons]; omega
+    · by_cases h2 : t ≤ k
+      · simp only [h1, h2, decide_true, decide_false, if_true, List.length_cons]; simp; omega
+      · simp only [h1, h2, decide_false]; simpa using ih
+
+/-- non-vacuity: `C08.demoNet` (AND + inverter behind forks) satisfies the hypotheses with and without stripping; its
+    un-stripped table is `[0, 2, 4, 5, 6]` — five levels — the stripped one `[0, 2, 3]` -/
+example := writer_before_reader_simops Gen.kindPrefixes C08.demoNet C08.demoOrder true C08.demo_hyps.1 C08.demo_hyps.2.1
+  (fun _ => C08.demo_hyps.2.2.1) C08.demo_hyps.2.2.2
+example := writer_before_reader_simops Gen.kindPrefixes C08.demoNet C08.demoOrder false C08.demo_hyps.1 C08.demo_hyps.2.1
+  (fun h => nomatch h) C08.demo_hyps.2.2.2
+example : (levelise C08.demoNet.idx.len (stemsOf C08.demoNet false)
+      (genOps Gen.kindPrefixes C08.demoNet C08.demoOrder false)).starts.reverse = C08.demoMap.starts ∧
+    (levelise C08.demoNet.idx.len (stemsOf C08.demoNet true)
+      (genOps Gen.kindPrefixes C08.demoNet C08.demoOrder true)).starts.reverse = C08.demoMapStrip.starts := by decide +kernel
+
+/-- the same fact for a stand-alone abstract levelisation fold (`Proofs/Levelise.lean: lstep`; operands read directly, no
+    stems; NOT the model of `SimOps` and run by no driver command — see `writer_before_reader_simops` for the tied statement):
+    an op that writes a signal is placed in a strictly earlier level than every
     later op that reads it (no op reads a signal produced in its own or a later level) — every op list -/
 theorem writer_before_reader (st0 : LSt) (h0 : LInv st0) (a b : List Op) (w o : Op)
     (hread : w.out ∈ o.ins) (hnowrite : ∀ p ∈ b, p.out ≠ w.out) :
     levelOf st0 a w < levelOf st0 (a ++ w :: b) o := levelise_valid st0 h0 a b w o hread hnowrite
 
-/-- levels never decrease along the op list, so each level is the contiguous range `level_starts` records -/
+/-- (abstract fold `lstep`, see above) levels never decrease along the op list -/
 theorem levels_contiguous (st0 : LSt) (h0 : LInv st0) (a b : List Op) (w o : Op) :
     levelOf st0 a w ≤ levelOf st0 (a ++ w :: b) o := levelise_mono st0 h0 a b w o
 
